@@ -1630,8 +1630,26 @@ impl HnswBackend {
     }
 
     fn file_id() -> u64 {
+        // Strictly increasing within the process: two calls inside the same microsecond (e.g. two
+        // racing create_snapshot calls) must never produce the same snapshot / WAL file name.
+        static LAST_FILE_ID: AtomicU64 = AtomicU64::new(0);
         match SystemTime::now().duration_since(UNIX_EPOCH) {
-            Ok(duration) => u64::try_from(duration.as_micros()).unwrap_or(u64::MAX),
+            Ok(duration) => {
+                let now = u64::try_from(duration.as_micros()).unwrap_or(u64::MAX);
+                let mut prev = LAST_FILE_ID.load(Ordering::Relaxed);
+                loop {
+                    let next = now.max(prev.saturating_add(1));
+                    match LAST_FILE_ID.compare_exchange_weak(
+                        prev,
+                        next,
+                        Ordering::Relaxed,
+                        Ordering::Relaxed,
+                    ) {
+                        Ok(_) => break next,
+                        Err(actual) => prev = actual,
+                    }
+                }
+            }
             Err(error) => {
                 let fallback = next_fallback_wal_file_id();
                 warn!(
